@@ -322,7 +322,7 @@ ASSUMPTIONS = [
 EXPLANATION = "Structural induction for the printer against ast.parse; classification lists; mangling pairs."
 MANIFEST = {
     "category": "proof",
-    "text": "The SymPy printer callbacks are executed on the real source for every operator and arity: (step) the emitted text parses, with Python's own parser, to the operation that denotes the Modelica operator on its operands in order; (closure) a compound node's text is one closed group whenever its operands are, and operands keep their grouping -- together the structural induction that the printed equation has the flat tree's meaning for any nesting. Equation printing, literals, references, the prefix-driven lists of exitClass and enumerated name-mangling pairs are verified as well. A bounded replay executes generated modules for random nested expressions and compares them numerically with the flat equations. The collision of a.b with a__b is a known finding.",
+    "text": "The SymPy printer callbacks are executed on the real source for every operator and arity: (step) the emitted text parses, with Python's own parser, to the operation that denotes the Modelica operator on its operands in order; (closure) a compound node's text is one closed group whenever its operands are, and operands keep their grouping -- together the structural induction that the printed equation has the flat tree's meaning for any nesting. Equation printing, literals, references, the prefix-driven lists of exitClass and enumerated name-mangling pairs are verified as well. A bounded replay executes generated modules for random nested expressions and compares them numerically with the flat equations. The collision of a.b with a__b is a known finding. The jinja2 template of exitClass inserts every printed text as the bare render.src[node] placeholder (no filter), one per equation.",
     "note": "Trusted: CPython's parser as the precedence table, the substitution lemma for closed texts, jinja2; mangling only on enumerated pairs; the closure obligation is soft (a correct printer with fewer parentheses makes the verdict undecided, not a violation).",
     "technique": "contract-based deductive verification: structural-induction obligations (step + closure invariant) discharged by executing the real callbacks symbolically and judging the emitted text with Python's parser",
 }
